@@ -180,6 +180,9 @@ def run_lockstep(tier, seed, force=False):
                 rc, itext = vlib.run([hbin, "run"], timeout=1200, input=ct)
             else:
                 rc, itext = vlib.run([hbin] + args, timeout=3000)
+            # the harness' panic hook prints unexpected panics on stderr (merged here); they are reported through
+            # `#alarm` lines of the script they belong to, so drop the raw lines before the model replays the trace
+            itext = "\n".join(l for l in itext.split("\n") if not l.startswith("PANIC:"))
             tf = os.path.join(cdir, "%s-%s.impl" % (bname, name))
             open(tf, "w").write(itext)
             if rc != 0:
